@@ -27,15 +27,27 @@ Section XV.
     destruct (is_dir s && negb (o_recursive o)); [reflexivity|].
     destruct (path_eqb s dest); [reflexivity|].
     destruct (last_comp s) as [c|]; [|reflexivity].
-    destruct c as [| | |n];
-      match goal with |- context [join dest ?cl] => set (jn := join dest cl) end;
-      set (tb := if exists_ dest && is_dir dest && negb (o_no_target_dir o) then jn else dest);
-      (assert ((if exists_ dest && is_dir dest && negb (o_no_target_dir o) then Some jn else Some dest) = Some tb) as ->
-          by (subst tb; destruct (exists_ dest && is_dir dest && negb (o_no_target_dir o)); reflexivity));
-      (destruct (path_eqb s tb || exists_ tb && same_file s tb); [reflexivity|]);
-      (destruct (is_dir s && exists_ tb && negb (is_dir tb)); [reflexivity|]);
-      rewrite (Hseen tb); (destruct (existsb (path_eqb tb) seenX); [reflexivity|]);
-      apply IH; intros p; rewrite existsb_app; cbn [existsb]; rewrite Hseen; rewrite orb_false_r; apply orb_comm.
+    (* a source ending in `..` maps onto the destination itself; every other last component is joined to it *)
+    assert (forall tb,
+      (if path_eqb s tb || exists_ tb && same_file s tb then Some E_SAME
+       else if is_dir s && exists_ tb && negb (is_dir tb) then Some E_DIR_TO_FILE
+       else if existsb (path_eqb tb) seenX then Some E_DUP_TARGET
+       else x_check_sources exists_ is_dir same_file o dest (seenX ++ [tb]) r) =
+      match (if path_eqb s tb || exists_ tb && same_file s tb then Some E_SAME
+             else if is_dir s && exists_ tb && negb (is_dir tb) then Some E_DIR_TO_FILE else None) with
+      | Some e => Some e
+      | None => if existsb (path_eqb tb) seenM then Some E_DUP_TARGET
+                else check_sources exists_ is_dir same_file o dest (exists_ dest && is_dir dest) (tb :: seenM) r
+      end) as Htail.
+    { intros tb.
+      destruct (path_eqb s tb || exists_ tb && same_file s tb); [reflexivity|].
+      destruct (is_dir s && exists_ tb && negb (is_dir tb)); [reflexivity|].
+      rewrite (Hseen tb). destruct (existsb (path_eqb tb) seenX); [reflexivity|].
+      apply IH. intros p. rewrite existsb_app. cbn [existsb]. rewrite Hseen, orb_false_r. apply orb_comm. }
+    destruct c as [| | |n]; cbn [comp_eqb negb]; rewrite ?andb_true_r, ?andb_false_r;
+      try (match goal with |- context [join dest ?cl] => set (jn := join dest cl) end;
+           destruct (exists_ dest && is_dir dest && negb (o_no_target_dir o)); apply Htail).
+    apply Htail.
   Qed.
 
   Theorem x_validate_ok : forall sources dest,
